@@ -127,6 +127,7 @@ impl<'a> Sink<'a> {
                 self.survivable = c == "user" && match op {
                     Op::Crash { cmp: 1, .. } => true,
                     Op::Crash { cmp: 0, op, .. } => matches!(**op, Op::ChangePriorityBy(..) | Op::PopIf(..) | Op::Extend { .. } | Op::FromIter { .. }),
+                    Op::Crash { cmp: 3, op, .. } => matches!(**op, Op::CloneSwap | Op::CloneFrom(..)),
                     _ => false,
                 };
                 // after an injected fault the white-box state is part of the observation (C10): read it through the hook
@@ -1045,6 +1046,7 @@ pub fn crash_mirror_stream<H: HX>(sink: &mut Sink, rng: &mut Rng, kinds: &[Kind]
             Op::Extend { lo: nb, hi: Some(nb), xs: big.clone() }, Op::Extend { lo: 0, hi: None, xs: big.clone() },
             Op::Extend { lo: ns, hi: Some(ns), xs: small.clone() },
             Op::FromVec(big.clone()), Op::FromIter { lo: nb, hi: Some(nb), xs: big.clone() }, Op::Append(0, small.clone()), Op::Append(300, big.clone()),
+            Op::CloneFrom(r.below(len + 1), small.clone()), Op::CloneFrom(len / 2, big.clone()), Op::CloneFrom(0, vec![]), Op::CloneSwap,
         ];
         if pq {
             cands.extend([Op::Pop, Op::PopIf(0, w, true), Op::PopIf(0, w, false)]);
@@ -1052,12 +1054,13 @@ pub fn crash_mirror_stream<H: HX>(sink: &mut Sink, rng: &mut Rng, kinds: &[Kind]
             cands.extend([Op::PopMin, Op::PopMax, Op::PeekMax, Op::PopIf(1, w, true), Op::PopIf(1, w, false), Op::PopIf(2, w, true), Op::PopIf(2, w, false)]);
         }
         let op = r.pick(&cands).clone();
-        let (kc, cbc) = {
+        let (kc, cbc, clc) = {
             let mut q = q0.clone_q();
             let c0 = cmp_count();
             let b0 = CBCOUNT.with(|c| c.get());
+            let l0 = CLCOUNT.with(|c| c.get());
             let _ = catch_unwind(AssertUnwindSafe(|| apply(&mut q, &op, Lookup::Owned)));
-            (cmp_count() - c0, CBCOUNT.with(|c| c.get()) - b0)
+            (cmp_count() - c0, CBCOUNT.with(|c| c.get()) - b0, CLCOUNT.with(|c| c.get()) - l0)
         };
         drop(q0);
         // fault points: (fuse kind, ordinal) — the k-th comparison, and for the operations whose callbacks the model
@@ -1067,6 +1070,11 @@ pub fn crash_mirror_stream<H: HX>(sink: &mut Sink, rng: &mut Rng, kinds: &[Kind]
         if matches!(op, Op::ChangePriorityBy(..) | Op::PopIf(..) | Op::Extend { .. } | Op::FromIter { .. }) {
             ks.extend((1..=cbc.min(max_k)).map(|k| (0u8, k)));
             if cbc > max_k { ks.push((0, cbc)); ks.push((0, r.range(max_k, cbc))); }
+        }
+        // `Clone` panics inside `clone()` / `clone_from()` (derived: the queue the caller holds afterwards is untouched)
+        if matches!(op, Op::CloneSwap | Op::CloneFrom(..)) {
+            ks = (1..=clc.min(max_k)).map(|k| (3u8, k)).collect();
+            if clc > max_k { ks.push((3, clc)); ks.push((3, r.range(max_k, clc))); }
         }
         if cont > 0 && !ks.is_empty() {
             // post-crash histories: one or two fault points per case, then the surviving queue goes on being used
